@@ -58,6 +58,7 @@ deriving DecidableEq, Repr
 inductive Ev where
   | create (seed : Nat)              -- np.random.default_rng(seed)
   | call (c : Call)
+  | xi (seedV n : Nat)               -- np.random.seed(seed_v); np.random.rand(n)  (global legacy generator)
 deriving DecidableEq, Repr
 
 /-- the Snowflake object (only the fields the bookkeeping touches) -/
@@ -69,6 +70,7 @@ structure Obj where
   nvUsed : NV
   hBuilt : Bool            -- `_H_int is not None`
   shelf : Shelf            -- source of `_H_shelf` (never `None` after construction)
+  seedV : Nat := 2024      -- `seed_v`, a plain attribute (constructor default 2024)
 deriving DecidableEq, Repr
 
 /-- the draw schedule of one run -/
@@ -130,7 +132,7 @@ def run (c : Cfg) (o : Obj) : Obj × Sched × List Ev :=
   let r4 := buildShelf c { r2.1 with rng := ⟨r2.1.seed, []⟩ }
   let r5 := getHShelf c r4.1
   let r6 := rollDice r5.1
-  (r6.1, r6.2.1, r1.2 ++ r2.2 ++ [.create r2.1.seed] ++ r4.2 ++ r5.2 ++ r6.2.2)
+  (r6.1, r6.2.1, r1.2 ++ r2.2 ++ [.create r2.1.seed] ++ r4.2 ++ r5.2 ++ [.xi o.seedV o.nv.total] ++ r6.2.2)
 
 /-- `run()` before the repair -/
 def runOld (c : Cfg) (o : Obj) : Obj × Sched × List Ev :=
@@ -138,7 +140,7 @@ def runOld (c : Cfg) (o : Obj) : Obj × Sched × List Ev :=
   let r2 := getHInt c r1.1
   let r5 := getHShelf c r2.1
   let r6 := rollDice r5.1
-  (r6.1, r6.2.1, r1.2 ++ r2.2 ++ r5.2 ++ r6.2.2)
+  (r6.1, r6.2.1, r1.2 ++ r2.2 ++ r5.2 ++ [.xi o.seedV o.nv.total] ++ r6.2.2)
 
 inductive Act where
   | new (s : Nat) (nv : NV)
@@ -146,6 +148,9 @@ inductive Act where
   | build
   | run
   | setN (nv : NV)
+  | setSeedV (v : Nat)     -- `S.seed_v = v`
+  | readShelf              -- `_ = S.H_shelf`
+  | readInt                -- `_ = S.H_int` (or `H_ext`)
 deriving DecidableEq, Repr
 
 /-- result of a history: final object, events per operation, schedules of the runs
@@ -154,6 +159,9 @@ structure Trace where
   obj : Obj
   evs : List (List Ev)
   scheds : List Sched
+  /-- per run: the vial seed and vial count the kinetic deviates `xi_v` are drawn with (the global legacy
+  generator is re-seeded with the CURRENT `seed_v` at the start of every run) -/
+  xis : List (Nat × Nat) := []
 deriving DecidableEq, Repr
 
 def step (runF : Cfg → Obj → Obj × Sched × List Ev) (c : Cfg) (t : Trace) : Act → Trace
@@ -161,8 +169,12 @@ def step (runF : Cfg → Obj → Obj × Sched × List Ev) (c : Cfg) (t : Trace) 
   | .setSeed s => { t with obj := (setSeed c s t.obj).1, evs := t.evs ++ [(setSeed c s t.obj).2] }
   | .build => { t with obj := (buildMatrices c t.obj).1, evs := t.evs ++ [(buildMatrices c t.obj).2] }
   | .run => { obj := (runF c t.obj).1, evs := t.evs ++ [(runF c t.obj).2.2],
-              scheds := t.scheds ++ [(runF c t.obj).2.1] }
+              scheds := t.scheds ++ [(runF c t.obj).2.1],
+              xis := t.xis ++ [(t.obj.seedV, t.obj.nv.total)] }
   | .setN nv => { t with obj := { t.obj with nv := nv }, evs := t.evs ++ [[]] }
+  | .setSeedV v => { t with obj := { t.obj with seedV := v }, evs := t.evs ++ [[]] }
+  | .readShelf => { t with obj := (getHShelf c t.obj).1, evs := t.evs ++ [(getHShelf c t.obj).2] }
+  | .readInt => { t with obj := (getHInt c t.obj).1, evs := t.evs ++ [(getHInt c t.obj).2] }
 
 def execFrom (runF : Cfg → Obj → Obj × Sched × List Ev) (c : Cfg) (o : Obj) (h : List Act) : Trace :=
   h.foldl (step runF c) { obj := o, evs := [], scheds := [] }
@@ -188,6 +200,13 @@ def seedAfter (s0 : Nat) : List Act → Nat
   | .new s _ :: h => seedAfter s h
   | .setSeed s :: h => seedAfter s h
   | _ :: h => seedAfter s0 h
+
+/-- the vial seed in force after a history -/
+def seedVAfter (v0 : Nat) : List Act → Nat
+  | [] => v0
+  | .new _ _ :: h => seedVAfter 2024 h
+  | .setSeedV v :: h => seedVAfter v h
+  | _ :: h => seedVAfter v0 h
 
 /-- the schedule of `Snowflake(seed = s, N_vials = nv).run()` -/
 def canon (c : Cfg) (s : Nat) (nv : NV) : Sched :=
